@@ -617,3 +617,56 @@ mut('C08', 'subprocess-elsewhere', DELQ,
 mut('C08', 'checkout-B', GIT,
     "            self.repo.cmd('git checkout -b %s %s', self.name,",
     "            self.repo.cmd('git checkout -B %s %s', self.name,")
+
+# ------------------------------------------------------------------- C02
+mut('C02', 'atomic-dropped', GIT,
+    "            self.cmd('git push --all --atomic %s' % prune)",
+    "            self.cmd('git push --all %s' % prune)")
+mut('C02', 'dest-merge-pushes', INTEG,
+    "    first.dst_branch.merge(first)\n    prev = first",
+    "    first.dst_branch.merge(first, do_push=True)\n    prev = first")
+mut('C02', 'helper-merge-pushes', GITUTILS,
+    "        dst.merge(src1)\n        dst.merge(src2)\n    except",
+    "        dst.merge(src1)\n        dst.merge(src2, do_push=True)\n    except")
+mut('C02', 'push-includes-source', GWF,
+    "        push(job.git.repo, wbranches[1:])\n\n    # create integration pull requests",
+    "        push(job.git.repo, wbranches)\n\n    # create integration pull requests")
+mut('C02', 'push-destinations-named', INTEG,
+    "    push(job.git.repo, prune=True)\n",
+    "    push(job.git.repo, [w.dst_branch for w in wbranches])\n    push(job.git.repo, prune=True)\n")
+mut('C02', 'queue-push-includes-dst', QUEUE,
+    "    to_push = list(qbranches)\n",
+    "    to_push = list(qbranches) + [w.dst_branch for w in wbranches]\n")
+mut('C02', 'reset-conditional', BERTE,
+    "        self.git_repo.reset()\n        try:\n            return self.dispatch(job)",
+    "        if not isinstance(job, CommitJob):\n            self.git_repo.reset()\n        try:\n            return self.dispatch(job)")
+mut('C02', 'merge-default-push', GIT,
+    "        do_push = kwargs.pop('do_push', False)",
+    "        do_push = kwargs.pop('do_push', True)")
+mut('C02', 'remove-always-pushes', GIT,
+    "        if not do_push:\n            return\n        try:\n            self.repo.push(':' + self.name)",
+    "        try:\n            self.repo.push(':' + self.name)")
+mut('C02', 'merge-queues-pushes-each', QUEUE,
+    "            destination.merge(latest)\n",
+    "            destination.merge(latest)\n            destination.push()\n")
+mut('C02', 'queues-not-validated', GWF,
+    "        try:\n            queues.validate()\n        except messages.IncoherentQueues as err:\n            raise messages.QueueOutOfOrder(\n                active_options=job.active_options) from err\n",
+    "")
+mut('C02', 'incoherent-swallowed', GWF,
+    "        except messages.IncoherentQueues as err:\n            raise messages.QueueOutOfOrder(\n                active_options=job.active_options) from err\n",
+    "        except messages.IncoherentQueues as err:\n            LOG.warning(err)\n")
+mut('C02', 'merge-after-push', INTEG,
+    "    push(job.git.repo, prune=True)\n",
+    "    push(job.git.repo, prune=True)\n    first.dst_branch.merge(first)\n")
+mut('C01', 'first-target-not-merged', INTEG,
+    "    first, *children = wbranches\n    first.dst_branch.merge(first)\n    prev = first",
+    "    first, *children = wbranches\n    prev = first")
+mut('C02', 'no-publication-on-return', INTEG,
+    "    push(job.git.repo, prune=True)\n",
+    "    if children:\n        push(job.git.repo, prune=True)\n")
+mut('C02', 'integration-branch-created-pushed', INTEG,
+    "            branch.create(dst, do_push=False)",
+    "            branch.create(dst)")
+mut('C02', 'wbranches-remove-pushes', INTEG,
+    "        try:\n            wbranch.remove()\n        except git.RemoveFailedException:\n            # ignore failures as this is non critical",
+    "        try:\n            wbranch.remove(do_push=True)\n        except git.RemoveFailedException:\n            # ignore failures as this is non critical")
